@@ -138,7 +138,7 @@ func (fs *FuncSpec) hasProp(p string) bool {
 	return false
 }
 
-var lemmaTypes = map[string]types.Type{"uint64": types.Typ[types.Uint64], "int64": types.Typ[types.Int64], "uint32": types.Typ[types.Uint32], "int32": types.Typ[types.Int32], "int": types.Typ[types.Int], "bool": types.Typ[types.Bool], "uint8": types.Typ[types.Uint8]}
+var lemmaTypes = map[string]types.Type{"uint64": types.Typ[types.Uint64], "int64": types.Typ[types.Int64], "uint32": types.Typ[types.Uint32], "int32": types.Typ[types.Int32], "int": types.Typ[types.Int], "bool": types.Typ[types.Bool], "uint8": types.Typ[types.Uint8], "bytes": types.NewSlice(types.Typ[types.Uint8])}
 
 func (p *Program) proveLemma(lm *Lemma) (u *Unit) {
 	pk := p.byPath[lm.Pkg]
